@@ -27,8 +27,20 @@ type Family struct {
 var codecs2 = []sut.Codec{sut.Uncompressed, sut.Snappy}
 var codecs3 = []sut.Codec{sut.Uncompressed, sut.Snappy, sut.Gzip}
 
+// CheckFn judges one case.
+type CheckFn func(t *sut.Target, recs []refpq.Val, batches []int, page int, codec sut.Codec) []oracle.Failure
+
 // RunAll executes the families on this worker's shard with the given oracles.
 func RunAll(c *fw.Ctx, flags oracle.Flags, fams []Family) {
+	RunAllWith(c, flags, fams, func(t *sut.Target, recs []refpq.Val, batches []int, page int, codec sut.Codec) []oracle.Failure {
+		_, fails := oracle.Run(t, recs, batches, page, codec, flags)
+		return fails
+	})
+}
+
+// RunAllWith executes the families with a custom judge; flags are recorded
+// in the replayable case.
+func RunAllWith(c *fw.Ctx, flags oracle.Flags, fams []Family, check CheckFn) {
 	for _, fam := range fams {
 		var n, mine int64
 		stop := false
@@ -48,7 +60,7 @@ func RunAll(c *fw.Ctx, flags oracle.Flags, fams []Family) {
 			mine++
 			c.Eval()
 			c.Distinct(fam.Name + "|" + tag)
-			_, fails := oracle.Run(t, recs, batches, page, codec, flags)
+			fails := check(t, recs, batches, page, codec)
 			if c.WantSample() && mine%7 == 1 {
 				c.Sample(oracle.Describe(t, recs, batches, page, codec))
 			}
@@ -58,7 +70,6 @@ func RunAll(c *fw.Ctx, flags oracle.Flags, fams []Family) {
 				c.Violate(oracle.Key(t, f), f.String()+"\ncase: "+fmt.Sprint(oracle.Describe(t, recs, batches, page, codec)), "case", cs)
 			}
 		})
-		c.Count("family_"+fam.Name+"_cases_total", 0)
 		if c.Shard == 0 {
 			c.Bound("family_"+fam.Name+"_cases", n)
 		}
@@ -513,3 +524,24 @@ func Workloads(targets []string, codecs []sut.Codec) []Workload {
 
 // Codecs3 is all three codecs.
 func Codecs3() []sut.Codec { return codecs3 }
+
+// ForC16 returns the file families of C16.
+func ForC16(thorough bool) []Family {
+	if !thorough {
+		return []Family{
+			BoundaryProduct("mini", 4, 3, codecs3, 3),
+			BoundaryProduct("flat3", 3, 3, codecs2, 0),
+			LongRuns("mini", []int{8, 9, 504, 505}, false),
+			StructureExhaustive("person", 2, 2, true, 30),
+			StructureExhaustive("document", 3, 2, true, 40),
+		}
+	}
+	return []Family{
+		BoundaryProduct("mini", 5, 4, codecs3, 4),
+		BoundaryProduct("flat3", 4, 4, codecs2, 0),
+		LongRuns("mini", []int{7, 8, 9, 63, 64, 65, 503, 504, 505, 1000, 1024, 4097}, true),
+		LongRuns("person", []int{8, 9, 504, 505, 1001}, false),
+		StructureExhaustive("person", 3, 2, true, 80),
+		StructureExhaustive("document", 4, 2, true, 120),
+	}
+}
